@@ -334,6 +334,8 @@ type stubT struct {
 	up                            []optT
 	upHas                         bool
 	ans                           int
+	refresh                       bool     // answering background refreshes: one answer id each
+	refreshSeen                   []string // OPT options of each refresh query that arrived
 }
 
 func ansIP(id int) net.IP { return net.IPv4(10, byte(id>>16), byte(id>>8), byte(id)).To4() }
@@ -420,6 +422,10 @@ func (s *stubT) ServeDNS(ctx context.Context, ch *middleware.Chain) {
 			m.Extra = append(m.Extra, o)
 		}
 		_ = ch.Writer.WriteMsg(m)
+		if s.refresh {
+			s.refreshSeen = append(s.refreshSeen, renderOpts(s.seen, true))
+			s.ans++
+		}
 	}
 	ch.Cancel()
 }
@@ -497,7 +503,13 @@ func pipeNew(f []string) vlib.Res {
 		CacheLimitTTL: config.Duration{Duration: time.Duration(capS) * time.Second}}
 	p := &pipeT{spec: spec, cap: capS, ed: edns.New(cfg), ca: cache.New(cfg), st: &stubT{}, ledger: map[int]*ansRec{}}
 	cache.VerifC19HoldPrefetch(p.ca)
-	p.ca.SetQueryer(&chainQueryer{handlers: []middleware.Handler{p.ca, p.st}})
+	// production wiring: the internal sub-pipeline (edns, cache, upstream) and the
+	// cache-less prefetch sub-pipeline (edns, upstream) come from Pipeline.autoWire
+	reg := middleware.NewRegistry()
+	reg.Register("edns", func(*config.Config) middleware.Handler { return p.ed })
+	reg.Register("cache", func(*config.Config) middleware.Handler { return p.ca })
+	reg.Register("c19upstream", func(*config.Config) middleware.Handler { return p.st })
+	middleware.VerifC19AutoWire(reg.Build(cfg))
 	pipe = p
 	pe, pc := edns.VerifC19Policy(p.ed), cache.VerifC19Policy(p.ca)
 	impl := "pol=" + vlib.B(pe != nil && pc != nil)
@@ -877,6 +889,17 @@ func exec(op string) vlib.Res {
 	case "pipe age":
 		cache.VerifC19AgeFraction(pipe.ca, vlib.AtoI64(a[0]), vlib.AtoI64(a[1]))
 		return vlib.Res{Impl: "ok"}
+	case "pipe refresh":
+		// pipe refresh <ttl> <upopts> <ans>: run every queued background refresh
+		// (the worker's processPrefetch, synchronously); the authority answers the
+		// i-th one with answer id ans+i
+		st := pipe.st
+		uo, uh := parseOpts(a[1])
+		st.ttl, st.up, st.upHas, st.ans = uint32(vlib.Atoi(a[0])), uo, uh, vlib.Atoi(a[2])
+		st.refresh, st.refreshSeen = true, nil
+		n := cache.VerifC19RunPrefetch(pipe.ca)
+		st.refresh = false
+		return vlib.Res{Impl: fmt.Sprintf("n=%d up=%s", n, strings.Join(st.refreshSeen, "|")), Oracle: "-", Tags: "nt"}
 	case "pipe pfq":
 		n, scoped := cache.VerifC19DrainPrefetch(pipe.ca)
 		or := "ok"
